@@ -955,6 +955,17 @@ def rule_expr_identity(db: ProgramDB) -> List[Instance]:
                 return any(isinstance(d, ast.AST) and not isinstance(d, ast.Name) and node_valued(d) for d in defs.get(e.id, []))
             return False
         for x in own_nodes(fn.node):
+            if isinstance(x, ast.Compare) and len(x.ops) == 1 and isinstance(x.ops[0], (ast.In, ast.NotIn)):
+                # membership of a node in a collection of nodes is decided with == as well; the graph nodes behind the expressions (`_node_`)
+                # are dataclasses that compare by fields, one of which is never set
+                l = x.left
+                if (isinstance(l, ast.Attribute) and l.attr == "_node_") or (node_valued(l) and not isinstance(x.comparators[0], (ast.Dict, ast.Name))):
+                    n += 1
+                    out.append(inst("EXPR-IDENTITY", VIOLATION, fn, f"{fn.short}[{unparse(x)[:50]}]",
+                                    f"`{unparse(x)[:70]}` asks with `in` whether a node is among other nodes: that compares with ==, which for a graph node reads a field "
+                                    f"that is never set (AttributeError: a term with field constraints and no parent in a rule block, two open iterators of one rule) and for an "
+                                    f"expression builds a comparison", line=x.lineno))
+                continue
             if isinstance(x, ast.Compare) and len(x.ops) == 1 and isinstance(x.ops[0], (ast.Eq, ast.NotEq)):
                 l, r = x.left, x.comparators[0]
                 if isinstance(l, ast.Constant) or isinstance(r, ast.Constant):
